@@ -50,7 +50,7 @@ def config(case):
     kind = case["kind"]
     nv = int(rng.integers(1, 4))
     N = int(rng.integers(1, 25 if kind == "positive" else 13))
-    style = case["rep"] // 3 % 5
+    style = case["rep"] // 3 % 6
     if style == 0:
         pos = max(1, N // int(rng.integers(1, 4)))
         neg = None
@@ -63,6 +63,10 @@ def config(case):
     elif style == 3:
         pos = int(rng.integers(1, max(2, N // 2 + 1)))
         neg = pos
+    elif style == 5:
+        # full-batch training over several epochs (the whole data set is one batch, every epoch)
+        pos = N + int(rng.choice([0, 0, 1, 3]))
+        neg = [None, pos][int(rng.integers(0, 2))]
     else:
         pos = int(rng.integers(2, 6))
         neg = int(rng.integers(1, 8))
@@ -70,6 +74,8 @@ def config(case):
            "neg": neg, "k": int(rng.integers(0, 4)), "lr": float(rng.choice([1e-3, 0.1, 1.0, 7.5])),
            "epochs": int(rng.integers(1, 5)), "start": int(rng.choice([1, 1, 2, 4])), "sched": bool(rng.random() < 0.5), "step_size": int(rng.integers(1, 3)),
            "gamma": float(rng.choice([0.5, 0.1])), "momentum0": bool(rng.random() < 0.5)}
+    if style == 5:
+        cfg["start"], cfg["epochs"] = 1, int(rng.integers(2, 5))
     if kind == "mixed" and cfg["lr"] > 1:
         cfg["lr"] = 1.0  # large steps push mixed states out of the well-conditioned range quickly
     return rng, cfg
